@@ -10,6 +10,13 @@ CHECKS = {
  'C11': ('exploration', 'runtime monitor: reference-model oracle (character-level state machine) over exhaustive small-scope lines + random Unicode lines, observed at the public reader and smart_split; JS twin via node driver',
          'Every line over the class alphabet up to 8/9 symbols per delimiter and policy is executed on the real splitter and reader and compared with an independent state-machine oracle; held on the executions observed, nothing is proved.',
          'Trusted: rv/model/refcsv.py as the dialect; interchangeability of non-special characters (sampled by relabelling).', 'DESIGN.md#c11'),
+
+ 'C12': ('exploration', 'runtime monitor: differential oracle (chunked vs whole read of the same real reader) under injected short-reading streams, exhaustive partitions of small texts / byte strings; whole read cross-checked against a reference reader',
+         'Every partition of every small text (and of multi-byte byte samples) is delivered to the real CSVRecordIterator through an injected stream and the observation compared with the one-piece delivery; held on the delivery schedules observed.',
+         'Trusted: the injected streams model what a pipe can deliver (read(k) returns at most k, possibly fewer); rv/model/refcsv.py read_text for the cross-check.', 'DESIGN.md#c12'),
+ 'C17': ('exploration', 'runtime monitor: reference-model oracle (dynamic-programming LIKE matcher) over exhaustive small pattern/text pairs and random Unicode pairs, observed through select/where like() on the Python and JS engines',
+         'All pattern/text pairs over the 14-symbol alphabet up to the stated lengths run through the real engines and are compared with an independent matcher; held on the pairs observed.',
+         'Trusted: rv/model/refcsv.py like(); single-line texts only.', 'DESIGN.md#c17'),
 }
 
 NOT_YET = 'check not registered yet (machinery under construction; see DESIGN.md section 3a build order)'
